@@ -180,6 +180,11 @@ func (code128Encoder) encodeWithHints(contentsStr string, hints map[gozxing.Enco
 						return nil, gozxing.NewWriterException(
 							"IllegalArgumentException: Bad number of characters for digit only encoding.")
 					}
+					if contents[position+1] < '0' || contents[position+1] > '9' {
+						// code set C encodes pairs of digits only (e.g. a digit followed by FNC1 under a forced code set)
+						return nil, gozxing.NewWriterException(
+							"IllegalArgumentException: Bad character in input for code set C: ASCII value=%v", int(contents[position+1]))
+					}
 					patternIndex = (int(contents[position])-'0')*10 + (int(contents[position+1]) - '0')
 					position++ // Also incremented below
 					break
